@@ -174,6 +174,14 @@ def gen_cases(rng, tier):
                 steps.append("%d:abortall" % (tl + 5))
             setup = (c[3] + ";" if c[3] and c[3] != "-" else "") + "quiesce"
             cases.append(["u-%s-%d" % (mod, j), "c16", "ua", c[2], setup, ",".join(steps), c[5] if len(c) > 5 and c[5].isdigit() else "1"])
+    # dialog-creating responses the UAC cannot use (no Contact): whatever was registered on the way must be gone again
+    P13 = importlib.import_module("props.c13")
+    for j, hist in enumerate((["180:a", "486:a"], ["183:a", "180:b", "404:-"], ["200:a"], ["180:a", "200:a"], ["180:a"], ["199:c", "603:c"])):
+        c = P13._case("nc%d" % j, hist, rng, nocontact=True)
+        steps = [s for s in c[4].split(",") if s]
+        tl = int(steps[-1].split(":")[0])
+        steps.append("%d:abortall" % (tl + 5))
+        cases.append(["u-nocontact-%d" % j, "c16", "ua", "uac", c[3] + ";quiesce", ",".join(steps), "1"])
     return cases
 
 
